@@ -3,6 +3,7 @@ mod util;
 mod c15;
 mod c19;
 mod c17;
+mod c18;
 use util::*;
 
 fn main() {
@@ -12,6 +13,10 @@ fn main() {
         std::process::exit(2);
     }
     let cmd = args[1].as_str();
+    if cmd == "child-sig" {
+        c18::child(&args[2..]);
+        return;
+    }
     let prop = args[2].as_str();
     let mut seed = 1u64;
     let mut tier = Tier::Quick;
@@ -44,6 +49,7 @@ fn main() {
                 "C15" => c15::corr(&mut ctx),
                 "C19" => c19::corr(&mut ctx),
                 "C17" => c17::corr(&mut ctx),
+                "C18" => c18::corr(&mut ctx),
                 "C19sweep" => c19::sweep(&mut ctx),
                 _ => {
                     eprintln!("unknown property {}", prop);
